@@ -1,6 +1,7 @@
 /-
 Glue for the rulebook pipeline (diff / patch / ordering): serves C01 C02 C03 C08 C16 C17.
 -/
+import AnnetModel.Model.Collapse
 import AnnetModel.Glue.Common
 import AnnetModel.Model.Api
 import AnnetModel.Spec.TestLogics
@@ -172,6 +173,32 @@ def orderH : Handler := fun j => do
   | none => pure (Json.mkObj [("grammar", false)])
   | some c => pure (Json.mkObj [("ok", cfgToJson c)])
 
-def handlers : List (String × Handler) := [("rb.diff", diffH), ("rb.patch", patchH), ("rb.order_config", orderH)]
+/-- `{"op":"rb.collapse","devs":[{name, hw_vendor, <the fields of rb.diff>, fmts:[the device's own formatter]},…]}` →
+`collapse_diffs` (Model/Collapse.lean) over the devices' own stripped diffs, keyed by the text of the device's formatter
+(Model/DiffText.lean): the device names of every group and the index of the device whose diff is shown for it -/
+def collapseH : Handler := fun j => do
+  let devs ← (← arg j "devs").getArr?
+  let mut es : List (Collapse.Entry Nat) := []
+  let mut idx := 0
+  for dj in devs.toList do
+    let name ← (← arg dj "name").getStr?
+    let hv ← (← arg dj "hw_vendor").getStr?
+    let job ← jobOfJson dj
+    let fmts ← (← (← arg dj "fmts").getArr?).toList.mapM fmtOfJson
+    match fmts.head? with
+    | none => throw "rb.collapse: fmts"
+    | some (_, f) =>
+      match makeDiff job.rules job.old job.new with
+      | .error e => return dErr e
+      | .ok d =>
+        match DiffText.signedList (stripUnchanged d) with
+        | none => throw "rb.collapse: unchanged entry"
+        | some s => es := es ++ [⟨name.toList, hv.toList, idx, DiffText.diffText f s⟩]
+    idx := idx + 1
+  pure (Json.mkObj [("groups", Json.arr ((Collapse.collapse es).map fun (ds, i) =>
+    Json.arr #[jStrs (ds.map String.ofList), jNat i]).toArray)])
+
+def handlers : List (String × Handler) :=
+  [("rb.diff", diffH), ("rb.patch", patchH), ("rb.order_config", orderH), ("rb.collapse", collapseH)]
 
 end Annet.Glue.Rb
